@@ -59,6 +59,8 @@ impl Interface for Serial {
 
                         if let Some(ref mut packet_builder) = self.packet_builder {
                             if let Err(err) = packet_builder.add_frame(ross_frame) {
+                                self.packet_builder = None;
+
                                 return Err(InterfaceError::BuilderError(err));
                             }
                         } else {
